@@ -478,3 +478,8 @@ CHECKS["C10"]["rule"] += (" The whole space is run a second time with the OpenMP
                           "of the sequence under a named schedule (defer-all FIFO/LIFO/priority/inverted priority, run-at-creation, rotating with the case ordinal).")
 
 CHECKS["C08"]["replayable"] = False      # a C08 violation is a comparison of two runs; it is re-run through the enumeration
+
+for _pid in ("C04", "C05"):
+    CHECKS[_pid]["rule"] += (" Periodic variant: the documented four-call sequence (periodic ordering + top tree, extra levels -1..1, thorough 2) on heights 2..3 (4) against the "
+                             "explicit long double sum over all images of getRepetitionsIntervals(), with its own per-order bounds; target/source variant (TbfTreeTsm + "
+                             "TbfAlgorithmTsm, sources and targets from different particle sets) against the direct sum over the sources.")
